@@ -22,7 +22,7 @@ ASSUMPTIONS = ["schedule-owning in-process pool is faithful to ordered-pool sema
 
 @st.composite
 def cases(draw, tier="quick"):
-    spec = draw(plotgen.plot_specs(thin=True, many=True, max_cells=3000 if tier == "quick" else 10000, max_fields=6,
+    spec = draw(plotgen.plot_specs(thin=True, many=True, level_prefix=True, max_cells=3000 if tier == "quick" else 10000, max_fields=6,
                                    payload_kinds=("special", "coded", "random"),
                                    layouts=("scatter", "nonmono", "single")))
     plot = plotgen.Plot(spec)
@@ -50,12 +50,17 @@ def check_case(case, ctx):
     from amr_kitchen import PlotfileCooker
     ctx.fresh()
     plot = plotgen.Plot(case["spec"])
-    plotgen.write(plot, "src")
+    from ..harness import VIAS, place_plotfile
+    import zlib as _z, json as _j
+    via = VIAS[_z.crc32(_j.dumps(case["spec"]["mesh"], sort_keys=True).encode()) % len(VIAS)]
+    src = place_plotfile(lambda pth: plotgen.write(plot, pth), via)
+    if via:
+        ctx.label("path:" + via)
     names = plot.fields
     labs = plot.labels()
     ctx.label(*labs)
     try:
-        pck = qcall(PlotfileCooker, "src", limit_level=case["limit"])
+        pck = qcall(PlotfileCooker, src, limit_level=case["limit"])
     except Exception as e:
         return [f"opening a well-formed plotfile raised {type(e).__name__}: {e}"]
     v = []
